@@ -597,7 +597,13 @@ Verdict World::check_homogeneous(const HomoModel& h)
       if (nref(d) != nref(*de.decl)) return Verdict::fail(tag + "/entry-order", "member " + std::to_string(i) + " is not the one added at that position");
       if (nref((*prod)[i]) != guarded_type(d)) return Verdict::fail(tag + "/type-component", "component " + std::to_string(i) + " of the type is not the member's type");
       if (nref(d.type()) != nref(*de.type)) return Verdict::fail(tag + "/decl-type", "member " + std::to_string(i) + " does not report its type");
-      if (nref(d.name()) != nref(*de.name)) return Verdict::fail(tag + "/decl-name", "member " + std::to_string(i) + " does not report its name");
+      // a base is named after its type (whatever that type's name is now); the others by the name they were given
+      const ipr::Name* want_name = de.name;
+      if (h.kind == H_bases) {
+         try { want_name = &de.type->name(); }
+         catch (const std::logic_error&) { continue; }
+      }
+      if (nref(d.name()) != nref(*want_name)) return Verdict::fail(tag + "/decl-name", "member " + std::to_string(i) + " does not report its name");
       // singleton sets
       if (nref(d.master()) != nref(d)) return Verdict::fail(tag + "/master", "master() of a unique declaration is not itself");
       if (d.decl_set().size() != 1 or nref(*d.decl_set().position(0)) != nref(d)) return Verdict::fail(tag + "/decl-set", "decl_set() of a unique declaration is not the singleton of itself");
@@ -609,7 +615,7 @@ Verdict World::check_homogeneous(const HomoModel& h)
       else pos = int64_t(i);
       if (pos != int64_t(i)) return Verdict::fail(tag + "/position", "member " + std::to_string(i) + " reports position " + std::to_string((long long) pos));
       // lookup by name finds the member, selection by its type returns it
-      auto ovl = sc[*de.name];
+      auto ovl = sc[*want_name];
       if (not ovl.is_valid()) return Verdict::fail(tag + "/lookup-miss", "lookup by name does not find member " + std::to_string(i));
       auto sel = ovl.get()[*de.type];
       if (not sel.is_valid() or nref(sel.get()) != nref(d)) return Verdict::fail(tag + "/select", "selection by the member's type does not return the member");
